@@ -1,8 +1,8 @@
-(* Bundle/ResolverAst.v — structural helpers on Syntax/Ast.v used by the resolver model:
-   derived `PartialEq` of the AST (what `travelled.contains(&pattern)` uses: the SmallVec holds
-   `&Pattern` and `contains` compares with `==`, which for references compares the pointees, i.e.
-   the derived structural equality — NOT pointer identity), and the size measures from which the
-   fuel of the resolver is computed.  Definitions only.                                        *)
+(* Bundle/ResolverAst.v — structural helpers on Syntax/Ast.v used by the resolver model: the size
+   measures from which the fuel of the resolver is computed, and the derived `PartialEq` of the AST.
+   Since the fix of D31 (Scope::track compares pattern objects with std::ptr::eq) the resolver model
+   no longer uses `pattern_eqb` / `pattern_mem`: identity of a pattern object is its key
+   (ResolverModel.v pkey).  The definitions stay for the specification side (C07).  Definitions only. *)
 From FluentV Require Export Base.Bytes Syntax.Ast.
 
 Section ListEqb.
@@ -78,7 +78,7 @@ with named_eqb (a b : named_arg) {struct a} : bool :=
   | NamedArgument x v1, NamedArgument y v2 => bytes_eqb x y && inline_eqb v1 v2
   end.
 
-(* SmallVec::contains on `travelled` *)
+(* SmallVec::contains on a list of patterns (what `travelled.contains` did before the fix of D31) *)
 Definition pattern_mem (p : pattern) (l : list pattern) : bool := existsb (pattern_eqb p) l.
 
 (* ---------- local weight: recursion depth needed inside one pattern (see ResolverModel.v) ---------- *)
